@@ -164,6 +164,62 @@ func ruleLimiterMap(c *Ctx, r *Rule) {
 			r.Ob(ok, fmt.Sprintf("%s|limitersMap.%s#%d", name, f, n[name]), a.in.Pos(), why)
 		}
 	}
+	// check-then-act: a limiter is inserted only after a lookup of the same map missed, and that
+	// lookup and the insert lie in one lock region (no unlock in between) — otherwise two
+	// processors racing on a new key each install (and count against) their own limiter
+	for _, fn := range c.ModFuncs {
+		if c.pkgOf(fn) != "plugin/action/throttle" || c.isStartOrStop(fn) || isRedisFn(fn) || c.startOnly(fn, 3) {
+			continue
+		}
+		nU := 0
+		for _, b := range fn.Blocks {
+			for _, in := range b.Instrs {
+				mu, ok := in.(*ssa.MapUpdate)
+				if !ok || !isLoadOfField(mu.Map, throttlePkg, "limitersMap", "lims") {
+					continue
+				}
+				nU++
+				r.Inst(1)
+				key := fmt.Sprintf("%s|insert#%d", c.fnName(fn), nU)
+				var lk *ssa.Lookup
+				for _, l := range c.unitGuards(mu) {
+					if e, ok := l.v.(*ssa.Extract); ok && e.Index == 1 && !l.pol {
+						if x, ok := e.Tuple.(*ssa.Lookup); ok && x.CommaOk && isLoadOfField(x.X, throttlePkg, "limitersMap", "lims") && sameExpr(x.Index, mu.Key) {
+							lk = x
+						}
+					}
+				}
+				if lk == nil {
+					r.Ob(false, key+"|after-miss", mu.Pos(), "a limiter is stored into the map without a preceding lookup miss of the same key: an existing limiter (and its counts) can be overwritten, so one key gets several budgets")
+					continue
+				}
+				r.Ob(true, key+"|after-miss", mu.Pos(), "insert is control-dependent on a lookup miss of the same key")
+				// no unlock between that lookup and the insert
+				isUnlock := func(in2 ssa.Instruction) bool {
+					ci, ok := in2.(ssa.CallInstruction)
+					if !ok {
+						return false
+					}
+					if _, isDefer := ci.(*ssa.Defer); isDefer {
+						return false
+					}
+					for _, ev := range c.lockEvents(ci) {
+						if ev.op == opUnlock && ev.ref.path == ".mu" {
+							return true
+						}
+					}
+					return false
+				}
+				split := false
+				if found, u := c.pathExists(fn, lk, isUnlock, func(in2 ssa.Instruction) bool { return in2 == ssa.Instruction(mu) }); found {
+					if again, _ := c.pathExists(fn, u, func(in2 ssa.Instruction) bool { return in2 == ssa.Instruction(mu) }, nil); again {
+						split = true
+					}
+				}
+				r.Ob(!split, key+"|same-region", mu.Pos(), "the lookup that missed and the insert are in one lock region (the lock is not released in between)")
+			}
+		}
+	}
 	// key = f(rule part, throttle key)
 	goa := c.Method("plugin/action/throttle", "limitersMap", "getOrAdd")
 	if goa == nil {
@@ -301,4 +357,28 @@ func argsNoRecv(ci ssa.CallInstruction) []ssa.Value {
 		return cc.Args[1:]
 	}
 	return cc.Args
+}
+
+// startOnly: fn is reachable only from plugin Start/Stop methods (initialisation code).
+func (c *Ctx) startOnly(fn *ssa.Function, depth int) bool {
+	if fn.Parent() != nil {
+		return c.startOnly(fn.Parent(), depth)
+	}
+	sites := c.sitesOf(fn)
+	if len(sites) == 0 || depth == 0 || c.dynamicallyCallable(fn) {
+		return false
+	}
+	for _, s := range sites {
+		caller := s.Parent()
+		for caller.Parent() != nil {
+			caller = caller.Parent()
+		}
+		if c.isStartOrStop(caller) {
+			continue
+		}
+		if !c.startOnly(caller, depth-1) {
+			return false
+		}
+	}
+	return true
 }
